@@ -1,2 +1,50 @@
-(* C01 -- theorem statements are being added; see DESIGN.md. *)
-From HS Require Import Lib.Base.
+(* C01 -- serve(): announced length equals the bytes actually delivered. *)
+From HS Require Import Lib.Base Lib.Dec Model.Body Model.Serve Proofs.BodyP Proofs.BodyRun Proofs.ServeP Proofs.ServeProps.
+
+(* No body ever delivers more than was announced: over any number of polls of any body
+   (Once, ExactLen, Multipart) and any behaviour of the entity's streams -- any chunking, empty
+   chunks, Pending polls, faults -- delivered + still-announced <= initially announced, with
+   equality as long as no error was reported. *)
+Theorem c01_never_more : forall n streams b rs bf, run n streams b = Ok (rs, bf) ->
+  delivered rs + body_hint bf <= body_hint b /\
+  (existsb is_perr rs = false -> delivered rs + body_hint bf = body_hint b).
+Proof. exact run_never_more. Qed.
+
+(* A body that ends cleanly has delivered exactly the number of bytes its exact size hint announced. *)
+Theorem c01_clean_end : forall n streams b rs bf, run n streams b = Ok (rs, bf) ->
+  existsb is_perr rs = false -> existsb is_pend rs = true -> delivered rs = body_hint b.
+Proof. exact run_clean_end. Qed.
+
+(* Every 200 and 206 carries exactly one Content-Length; for GET it is the decimal rendering of
+   the body's exact size hint (hence, by c01_clean_end, of the bytes delivered); every other
+   status carries none. For every request, every entity length < 2^64, every header set. *)
+Theorem c01_content_length : forall fmt_date parse_date now ent req r streams,
+  e_len ent < U64 -> no_framing_headers ent ->
+  serve_model fmt_date parse_date now ent req = Ok r ->
+  if (status r =? 200) || (status r =? 206) then
+    exists n, values H_CONTENT_LENGTH (hdrs r) = [dec n] /\
+              (r_meth req = GET -> body_hint (fst (body_init streams (rplan r))) = n)
+  else values H_CONTENT_LENGTH (hdrs r) = [].
+Proof. exact content_length_announces_body. Qed.
+
+(* 304, 400, 405, 412, 413, 416: no Content-Length (above), yet an exact size: a constant text or nothing. *)
+Theorem c01_exact_without_content_length : forall fmt_date parse_date now ent req r,
+  e_len ent < U64 -> serve_model fmt_date parse_date now ent req = Ok r ->
+  In (status r) [304; 400; 405; 412; 413; 416] ->
+  exists o, rplan r = PlOnce o /\
+    forall streams, body_hint (fst (body_init streams (rplan r))) = match o with Some t => lenN t | None => 0 end.
+Proof. exact other_statuses_exact_hint. Qed.
+
+(* non-vacuity: a two-chunk stream through an ExactLen body of 3 bytes *)
+Example c01_instance :
+  run 3 [] (BExact {| x_s := [EvData [1; 2]; EvPending; EvData [3]]; x_rem := 3 |})
+  = Ok ([PData [1; 2]; PPending; PData [3]], BExact {| x_s := []; x_rem := 0 |}).
+Proof. reflexivity. Qed.
+
+Check c01_never_more : forall n streams b rs bf, run n streams b = Ok (rs, bf) ->
+  delivered rs + body_hint bf <= body_hint b /\
+  (existsb is_perr rs = false -> delivered rs + body_hint bf = body_hint b).
+Print Assumptions c01_never_more.
+Print Assumptions c01_clean_end.
+Print Assumptions c01_content_length.
+Print Assumptions c01_exact_without_content_length.
